@@ -38,7 +38,9 @@ def check_pda(res, spec, what, L, lang):
     return snap
 
 
-def common(spec):
+def common(spec, case=None):
+    from harness.libstate import set_identifier_generators
+    set_identifier_generators((case or {}).get("id_offset", 0))
     L = bound(spec)
     lang = RP.lang_upto(spec, L)
     lang0 = RP.lang_upto(spec, L, empty_stack=True)
@@ -55,7 +57,7 @@ def common(spec):
 
 def run_one_accepting(case):
     spec = case["pda"]
-    L, lang, cls, nt = common(spec)
+    L, lang, cls, nt = common(spec, case)
     P = BP.mk_pda(spec)
     lib(PA.pda_to_one_accepting_state_in_place, P)
     snap = check_pda(P, spec, "pda_to_one_accepting_state_in_place", L, lang)
@@ -66,7 +68,7 @@ def run_one_accepting(case):
 
 def run_push_pop(case):
     spec = case["pda"]
-    L, lang, cls, nt = common(spec)
+    L, lang, cls, nt = common(spec, case)
     P = BP.mk_pda(spec)
     before = BP.canon(spec)
     res = lib(PA.pda_to_push_pop, P)
@@ -82,7 +84,7 @@ def run_push_pop(case):
 
 def run_empty_stack(case):
     spec = case["pda"]
-    L, lang, cls, nt = common(spec)
+    L, lang, cls, nt = common(spec, case)
     P = BP.mk_pda(spec)
     before = BP.canon(spec)
     res = lib(PA.pda_to_accept_on_empty_stack, P)
@@ -97,7 +99,7 @@ def run_empty_stack(case):
 
 def run_to_cfg(case):
     spec = case["pda"]
-    L, lang, cls, nt = common(spec)
+    L, lang, cls, nt = common(spec, case)
     P = BP.mk_pda(spec)
     before = BP.canon(spec)
     Gr = lib(PA.pda_to_cfg, P)
@@ -123,7 +125,7 @@ def cases(draw, tier):
     spec = draw(GP.mixed_pda_specs(max_states=3, max_trans=6 if tier == "quick" else 8))
     if not spec["F"] and draw(st.booleans()):
         spec["F"] = [spec["Q"][-1]]
-    return {"pda": spec}
+    return {"pda": spec, "id_offset": draw(st.integers(0, 3))}
 
 
 @st.composite
@@ -131,7 +133,7 @@ def small_cases(draw, tier):
     spec = draw(st.one_of(GP.pda_specs(max_states=2, max_trans=4, max_gamma=2), GP.pda_specs(max_states=3, max_trans=5, max_gamma=2), GP.structured_pda_specs(max_noise=1)))
     if not spec["F"] and draw(st.booleans()):
         spec["F"] = [spec["Q"][-1]]
-    return {"pda": spec}
+    return {"pda": spec, "id_offset": draw(st.integers(0, 3))}
 
 
 RULE = ("random and structured (a^n b^n, palindromes, acceptance with non-empty stack, replace moves; with noise transitions, renamed states) PDAs; "
